@@ -50,6 +50,8 @@ pub fn config_blocks() -> Vec<(String, &'static str)> {
         (hex16([4, 0x20, 0, 0, 0, 0, 0, 0, 0, 0, 0, 0, 0, 0, 0, 0]), "zero-size"),
         (hex16([8, 0xB1, 0, 0, 0, 0, 0, 160, 0, 0, 0, 0, 0, 0, 0, 0]), "zero-height"),
         (hex16([0xFF; 16]), "all-ff"),
+        (hex16([8, 0, 0, 0, 0, 7, 0, 0, 0, 0, 0, 0, 0, 0, 0, 0]), "zero-width"),
+        (hex16([4, 0, 0, 0, 9, 0, 0, 0, 0, 8, 0, 0, 0, 0, 0, 0]), "zero-width-max3000"),
     ]
 }
 
@@ -1405,6 +1407,15 @@ fn snn_cases(ctx: &mut Ctx) {
                 for at in (0..full.len()).step_by(step) {
                     scripts.push((record(&op, v, hello, Some(at)), "bus-error-inside"));
                     scripts.push((full[..at].to_vec(), "cut-short"));
+                }
+            }
+            // the very last reply (the state query that decides the flip style) from another address, or "showing pages"
+            if full.len() >= 2 {
+                for last in [format!("RS.{}.SHP", own - 1), format!("RS.{}.SHP", own + 1), format!("RS.{}.SHP", own), format!("RS.{}.PLD", own + 0x100)] {
+                    let mut sc = full.clone();
+                    let n = sc.len();
+                    sc[n - 1] = last;
+                    scripts.push((sc, "last-reply-varied"));
                 }
             }
             for (script, class) in scripts {
